@@ -1,12 +1,16 @@
 //go:build verif
 
-package oprf
+package oprf_test
 
-// C09 / OPRF public keys: PublicKey.UnmarshalBinary for the four suites
-// accepts only canonical compressed encodings of group members, the decoded
-// element is the one the encoding denotes, and MarshalBinary gives the
-// parsed bytes back. (Evaluated elements travel as group.Element values and
-// are decoded by group.Element.UnmarshalBinary: units group_*.)
+// C09 / OPRF public keys, through the exported API: PublicKey.UnmarshalBinary for
+// the four suites accepts only canonical compressed encodings of group members
+// and MarshalBinary gives the parsed bytes back; also on a reused key object.
+// When the in-package file zz_verif_c09_internals_test.go is present it lends a
+// read-out of the element inside the key (hook "c09/oprf/element"), so that the
+// decoded point itself is compared with the reference's; without it (e.g. after
+// a refactoring of the unexported field) the unit still runs and judges the
+// re-serialisation. (Evaluated elements travel as group.Element values and are
+// decoded by group.Element.UnmarshalBinary: units group_*.)
 
 import (
 	"testing"
@@ -14,18 +18,28 @@ import (
 	"github.com/cloudflare/circl/internal/verifmc"
 	"github.com/cloudflare/circl/internal/verifref/c09ref"
 	"github.com/cloudflare/circl/internal/verifref/wcurve"
+	"github.com/cloudflare/circl/oprf"
 )
 
 func TestVerifC09_oprf_keys(t *testing.T) {
 	r := verifmc.Start(t, "C09", "oprf_keys")
 	defer r.Finish()
 	r.Rule("per suite the compressed-format alphabet of the group units (flips of 1 quick / 10 thorough bases) and the ristretto255 alphabet, plus public keys derived by the library from 3 seeds; " +
-		"the element inside the accepted key is read in-package and re-marshalled uncompressed for comparison with the reference's point; every case also decoded into a key object that already holds the nearest valid key, and before it; distinct = distinct (suite, input bytes)")
+		"the element inside the accepted key is read through an optional in-package hook and re-marshalled uncompressed for comparison with the reference's point; every case also decoded into a key object that already holds the nearest valid key, and before it; distinct = distinct (suite, input bytes)")
+	// the element inside a key, uncompressed, when the internals file is present; nil otherwise
+	elem := func(pk *oprf.PublicKey) []byte { return nil }
+	if h, ok := verifmc.Hook("c09/oprf/element").(func(interface{}) []byte); ok {
+		elem = func(pk *oprf.PublicKey) []byte { return h(pk) }
+		r.Set("element_readout", "present")
+	} else {
+		r.Set("element_readout", "absent: decoded values are judged through re-serialisation only")
+	}
+	remarshal := func(pk *oprf.PublicKey) []byte { b, _ := pk.MarshalBinary(); return b }
 	type suiteT struct {
-		s     Suite
+		s     oprf.Suite
 		curve *wcurve.Curve
 	}
-	for _, st := range []suiteT{{SuiteP256, wcurve.P256()}, {SuiteP384, wcurve.P384()}, {SuiteP521, wcurve.P521()}, {SuiteRistretto255, nil}} {
+	for _, st := range []suiteT{{oprf.SuiteP256, wcurve.P256()}, {oprf.SuiteP384, wcurve.P384()}, {oprf.SuiteP521, wcurve.P521()}, {oprf.SuiteRistretto255, nil}} {
 		st := st
 		var cases []c09ref.Case
 		if st.curve != nil {
@@ -34,7 +48,7 @@ func TestVerifC09_oprf_keys(t *testing.T) {
 			cases = c09ref.RistrettoCases(c09ref.EdOptions{FlipBases: r.Pick(1, 11), Special: 8})
 		}
 		for i, seed := range verifmc.SeedsN(32, r.Seed(), 3) {
-			sk, err := DeriveKey(st.s, VerifiableMode, seed, []byte("verif-c09"))
+			sk, err := oprf.DeriveKey(st.s, oprf.VerifiableMode, seed, []byte("verif-c09"))
 			if err != nil {
 				t.Fatal(err)
 			}
@@ -43,8 +57,8 @@ func TestVerifC09_oprf_keys(t *testing.T) {
 				t.Fatal(err)
 			}
 			cases = append(cases, c09ref.Case{Name: "lib/key" + string(rune('0'+i)), Class: "valid-lib", Data: enc})
-			back := new(PublicKey)
-			if err := back.UnmarshalBinary(st.s, c09ref.Clone(enc)); err != nil || !back.e.IsEqual(sk.Public().e) {
+			back := new(oprf.PublicKey)
+			if err := back.UnmarshalBinary(st.s, c09ref.Clone(enc)); err != nil || string(elem(back)) != string(elem(sk.Public())) || string(remarshal(back)) != string(enc) {
 				r.Violation("C09|oprf.PublicKey.UnmarshalBinary/"+st.s.Identifier()+"|own-encoding-not-equal|valid-lib", "own-key",
 					"a marshalled public key is refused or differs", map[string]string{"input": verifmc.FullHex(enc)})
 			}
@@ -65,20 +79,20 @@ func TestVerifC09_oprf_keys(t *testing.T) {
 				}
 				return verifmc.DecOracle{Member: v.Member, Reason: v.Reason, Point: v.Point}
 			},
-			AcceptOnly: func(in []byte) bool { return new(PublicKey).UnmarshalBinary(st.s, in) == nil },
+			AcceptOnly: func(in []byte) bool { return new(oprf.PublicKey).UnmarshalBinary(st.s, in) == nil },
 			Seq: func(first, second []byte) verifmc.DecResult {
-				pk := new(PublicKey)
+				pk := new(oprf.PublicKey)
 				_ = pk.UnmarshalBinary(st.s, first)
 				if err := pk.UnmarshalBinary(st.s, second); err != nil {
 					return verifmc.DecResult{}
 				}
 				out, _ := pk.MarshalBinary()
 				res := verifmc.DecResult{Accepted: true, Reenc: out}
-				res.Point, _ = pk.e.MarshalBinary()
+				res.Point = elem(pk)
 				return res
 			},
 			Lib: func(in []byte) verifmc.DecResult {
-				pk := new(PublicKey)
+				pk := new(oprf.PublicKey)
 				if err := pk.UnmarshalBinary(st.s, in); err != nil {
 					return verifmc.DecResult{}
 				}
@@ -87,7 +101,7 @@ func TestVerifC09_oprf_keys(t *testing.T) {
 				if err != nil {
 					res.Note = "marshal-fails-after-accept"
 				}
-				res.Point, _ = pk.e.MarshalBinary()
+				res.Point = elem(pk)
 				return res
 			}})
 	}
